@@ -141,3 +141,24 @@ Proof.
   - intros Hm. rewrite Hm in S. destruct (Nat.ltb w (nworkers s)); cbn [b2n] in S; split; Lia.lia.
   - intros Hs. destruct (Nat.ltb w (nworkers s)), (mem w (idle s)); cbn [b2n] in S; Lia.lia.
 Qed.
+
+(** a growth request served while tasks wait and the limit allows a worker: the worker IS created and takes the
+    oldest waiting task at once (whatever deferred shrink is outstanding) *)
+Lemma pop_single w ch : pop_idle [w] ch = Some (w, []).
+Proof.
+  unfold pop_idle. destruct ch as [|c r]; cbn; [rewrite Nat.eqb_refl; reflexivity|].
+  destruct (Nat.eqb c w) eqn:E; cbn.
+  - apply Nat.eqb_eq in E. subst c. rewrite Nat.eqb_refl. reflexivity.
+  - rewrite Nat.eqb_refl. reflexivity.
+Qed.
+
+Lemma grow_serves_backlog n s ch t p :
+  pending s = t :: p -> idle s = [] -> length (idle s) + busy s < limit s ->
+  exists rest, snd (grow_loop (S n) s ch)
+               = ECreate (nworkers s) (length (idle s) + busy s) (limit s) :: EDo (nworkers s) t :: rest.
+Proof.
+  intros Hp Hi Hl. cbn [grow_loop]. apply Nat.ltb_lt in Hl. rewrite Hl.
+  unfold recycle. cbn [pending idle]. rewrite Hp, Hi. cbn [app]. unfold coordinate. cbn [idle]. rewrite pop_single.
+  match goal with |- context [grow_loop n ?s1 ?c1] => destruct (grow_loop n s1 c1) as [[s2 ch2] es2] end.
+  cbn. eexists. reflexivity.
+Qed.
